@@ -143,6 +143,9 @@ class Routes:
             out = self.it.call(self.tr.env['generate_source_code'], ['# Grammar definition:\n(route)', p], {})
         except M.MetaRaise as e:
             return e
+        except RecursionError:
+            return M.MetaRaise(RecursionError('the translator recurses without bound on this grammar'),
+                               'sourcer/expressions (argumentize/functionalize)')
         return Emitted(label, out.source_code(), name is not None, extends is not None, out)
 
 
